@@ -209,6 +209,9 @@ func c06Loopback(c *Ctx) {
 				if i%3 == 0 {
 					dv.state = "valid"
 				}
+				if r.Chance(0.25) {
+					dv.proto = "tcp"
+				}
 				effTCP := dv.proto == "tcp"
 				k := r.Pick(3)
 				bindKind := []string{"127.0.0.1:0", "127.0.0.2:0", "fixed"}[r.Pick(3)]
